@@ -13,31 +13,13 @@ for id in $CLAIMED; do
   if [ $rc -ne 0 ]; then echo "BASE FAIL $id"; echo "$out" | tail -5; FAIL=1; else echo "base ok $id"; fi
 done
 fi
-runon() { # dir ids...
-  local S=$1; shift
-  local O=$(mktemp -d /tmp/mutout.XXXXXX); cp known_findings.json $O/
-  for id in "$@"; do
-    if bin/helmverif -prop $id -tier quick -repo $S -verif $O >/dev/null 2>&1; then echo -n "$id:miss "; else echo -n "$id:CAUGHT "; fi
-  done
-  rm -rf $O
-}
 python3 - <<'PY' > /tmp/regress.list
 import json
 e=json.load(open('/verif/tools/seed_expect.json'))
 for k,v in sorted(e.items()):
-    print(k, ' '.join(v['checks']) if v['checks'] else '-')
+    print(k, ','.join(v['checks']) if v['checks'] else '-')
 PY
-while read name checks; do
-  S=$(mktemp -d /tmp/mut.XXXXXX); rsync -a --exclude .git /repo/ $S/
-  if [[ $name == revert-* ]]; then
-    c=${name#revert-}; git -C /repo show $c | (cd $S && patch -R -p1 -s) || { echo "REVERT FAILED $name"; rm -rf $S; continue; }
-  else
-    (cd $S && patch -p1 -s < /verif/seeded/$name/patch.diff) || { echo "PATCH FAILED $name"; rm -rf $S; FAIL=1; continue; }
-  fi
-  if [ "$checks" = "-" ]; then echo "$name: (documented miss)"; rm -rf $S; continue; fi
-  res=$(runon $S $checks)
-  echo "$name: $res"
-  if echo "$res" | grep -q ":miss"; then FAIL=1; fi
-  rm -rf $S
-done < /tmp/regress.list
+xargs -P ${REGRESS_JOBS:-6} -L 1 tools/regress_one.sh < /tmp/regress.list | sort > /tmp/regress.out
+cat /tmp/regress.out
+if grep -q ":miss\|FAILED" /tmp/regress.out; then FAIL=1; fi
 exit $FAIL
